@@ -782,8 +782,8 @@ def buckets(tier):
     B = []
 
     def add(name, strat, prop, q, t, nt, cl, weight=1.0, shards=1):
-        B.append(Bucket(name, strat, prop, {'quick': q, 'thorough': t}, nontrivial=nt, classes=cl,
-                        shards={'quick': 1, 'thorough': shards}, weight=weight))
+        B.append(sh.packed_bucket(name, strat, prop, {'quick': q, 'thorough': t}, nt, cl, weight=weight,
+                                  shards={'quick': 1, 'thorough': shards}))
 
     # (a) registry
     for name, op in ops.REG.items():
